@@ -13,7 +13,8 @@
 //       (b) end to end: a real Logger with a recording sink, the real JsonFileSink and the real
 //       JsonConsoleSink, driven through Backend::acquire_manual_backend_worker() + poll().
 //       (lvl and the table are for the model / the monitor; the harness ignores them.)
-//       out per stmt: err(0/1) text:str named(0/1) npairs (key:str value:str)* json:str console_same(0/1)
+//       out per stmt: calls err(0/1) text:str nonempty(0/1) npairs (key:str value:str)* json:str console_same(0/1)
+//       calls = number of write_log calls the recording sink received for the statement;
 //       text is left empty when the statement could not be formatted (err = 1, error notifier
 //       called); the thread id inside the JSON line is replaced by "0".
 //
@@ -163,6 +164,7 @@ struct Rec
   std::vector<std::pair<std::string, std::string>> named; int calls{0};
 };
 static Rec g_rec;
+static bool g_multi_line = false;   // argv[1] == "multiline" keeps the library default
 class RecSink final : public quill::Sink
 {
 public:
@@ -248,8 +250,11 @@ struct E2E
   quill::Logger* logger(std::string const& name)
   {
     std::vector<std::shared_ptr<quill::Sink>> sinks{rec, jf, jc};
-    return quill::Frontend::create_or_get_logger(name, std::move(sinks), quill::PatternFormatterOptions{},
-                                                 quill::ClockSourceType::User, &clock);
+    // add_metadata_to_multi_line_logs = false: with the default (true) a statement WITHOUT named
+    // arguments whose text has k lines is handed to every sink k times (k JSON objects); statements
+    // with at least one key/value pair never take that path, so the option is irrelevant to them.
+    quill::PatternFormatterOptions pfo; pfo.add_metadata_to_multi_line_logs = g_multi_line;
+    return quill::Frontend::create_or_get_logger(name, std::move(sinks), pfo, quill::ClockSourceType::User, &clock);
   }
   void run_case(std::vector<u64> const& a)
   {
@@ -278,14 +283,14 @@ struct E2E
       std::string needle = "\"thread_id\":\"" + g_rec.tid + "\"";
       if (size_t p = jl.find(needle); p != std::string::npos && !g_rec.tid.empty())
         jl.replace(p, needle.size(), "\"thread_id\":\"0\"");
+      out.push_back(static_cast<u64>(g_rec.calls));
       out.push_back(errors ? 1 : 0);
       put_str(out, errors ? std::string_view{} : std::string_view{g_rec.text});
-      out.push_back(g_rec.has_named ? 1 : 0);
+      out.push_back(g_rec.named.empty() ? 0 : 1);   // a null and an empty vector are the same observation
       out.push_back(g_rec.named.size());
       for (auto const& kv : g_rec.named) { put_str(out, kv.first); put_str(out, kv.second); }
       put_str(out, jl);
       out.push_back(same ? 1 : 0);
-      if (g_rec.calls != 1) out.push_back(777000 + static_cast<u64>(g_rec.calls));
     }
     if (r.bad) out.push_back(999999);
     emit(out);
@@ -329,8 +334,9 @@ static void run_oracle(std::vector<u64> const& a)
   emit(out);
 }
 
-int main()
+int main(int argc, char** argv)
 {
+  if (argc > 1 && std::string(argv[1]) == "multiline") g_multi_line = true;
   std::string model; std::vector<u64> a; E2E e2e; bool e2e_on = false;
   while (vh::read_case(model, a))
   {
@@ -344,5 +350,6 @@ int main()
     else emit({999998});
   }
   if (e2e_on) e2e.fini();
-  return 0;
+  fflush(nullptr);
+  std::_Exit(0);   // skip static destruction (the backend singleton would drain again)
 }
